@@ -159,6 +159,23 @@ def exists(lo, hi, body):
     return _quant("exists", lo, hi, body)
 
 
+def forall_ind(lo, hi, body):
+    """forall k in [lo, hi): body(k), to be PROVED BY INDUCTION on k.
+
+    Where the formula is assumed (preconditions, callee postconditions in stubs) it is the plain
+    universal statement.  Where it is claimed, the induction scheme is generated instead:
+        body(lo)   and   forall k in [lo, hi-1): body(k) => body(k+1)
+    which entails the universal statement by induction over the integers (the one meta-level step;
+    the solvers do not do induction by themselves)."""
+    if HAVE_Z3 and sym.have_ctx():
+        c = sym.ctx()
+        if c.ghost.get("mode", "claim") == "claim":
+            base = Implies(lo < hi, body(lo))
+            step = forall(lo, hi - 1, lambda k: Implies(body(k), body(k + 1)))
+            return And(base, step)
+    return forall(lo, hi, body)
+
+
 def forall_real(body, samples=()):
     """forall real x: body(x).  Natively only the given samples are evaluated."""
     if HAVE_Z3 and sym.have_ctx():
@@ -325,3 +342,27 @@ def lt_tol(a, b, rel=1e-9, abs_=1e-9):
     if _any_sym(a, b):
         return a < b
     return a < b or approx_eq(a, b, rel, abs_)
+
+
+# ---- sequences (SymSeq or concrete) ----------------------------------------------------------------
+
+
+def seq_len(s):
+    return s.__symlen__() if hasattr(s, "__symlen__") else len(s)
+
+
+def seq_get(s, i, default=0):
+    """element i of a SymSeq, a numpy array or a python sequence; a symbolic index into a concrete
+    sequence is resolved by an if-then-else chain (positions outside read as `default`)"""
+    if hasattr(s, "__symlen__"):
+        return s.get(i)
+    if isinstance(i, SymBase):
+        acc = default
+        for k in range(len(s) - 1, -1, -1):
+            acc = Ite(i == k, s[k], acc)
+        return acc
+    i = int(i)
+    if 0 <= i < len(s):
+        v = s[i]
+        return int(v) if hasattr(v, "dtype") and v.dtype.kind in "iu" else v
+    return default
